@@ -48,16 +48,29 @@ with node :=
 | NCase (cond body : ast)
 | NWhile (c b : ast) | NFor (e col b : ast)
 | NRaise (e : ast) | NHandle (e : ast) (cases : list ast)
-| NImport (from : option ast) (import alias : list ast).
+| NImport (from : option ast) (import alias : list ast)
+| NClass (name : string) (generics : list nm) (args parents : list ast) (body : option ast)
+| NParent (name : string) (generics : list nm) (args : list ast)
+| NTypeDef (name : string) (generics : list nm) (isa : option nm) (body : option ast)
+           (abstract_parent : bool)   (* has_abstract_parent of the context, supplied with the AST *)
+| NTypeAlias (name : string) (generics : list nm) (isa : nm)
+| NDict (elements : list (ast * ast))
+| NListBuilder (item : ast) (conds : list ast) | NSetBuilder (item : ast) (conds : list ast)
+| NDictBuilder (from to : ast) (conds : list ast)
+| NWith (resource : ast) (alias : option ast) (body : ast).
 
 Definition ast_ty (a : ast) : option nm := match a with A t _ => t end.
 Definition ast_node (a : ast) : node := match a with A _ n => n end.
 
 (** ** [Imports] *)
-(** [from_imps]: the BTreeMap keyed by module name; the value is the (sorted) list of imported
-    names and the alias list of the [Core::Import] the Rust code stores under that key. *)
-Record imports := { imps : list core; from_imps : list (string * (list core * list core)) }.
-Definition imports0 : imports := {| imps := []; from_imps := [] |}.
+(** The BTreeMap of from-imports is kept in two parts: the entry for [typing] and the others
+    (sorted by key); [from_imps] puts them together again.  A value is the (sorted) list of
+    imported names and the alias list of the [Core::Import] stored under the key. *)
+Record imports := {
+  imps : list core;
+  typing_imps : option (list core * list core);
+  other_from : list (string * (list core * list core)) }.
+Definition imports0 : imports := {| imps := []; typing_imps := None; other_from := [] |}.
 
 Definition core_id_eqb (a b : core) : bool :=
   match a, b with Id x, Id y => String.eqb x y | _, _ => false end.
@@ -71,7 +84,7 @@ Definition import_eqb (a b : core) : bool :=
 Definition add_import (name : string) (i : imports) : imports :=
   let imp := Import None [Id name] [] in
   if existsb (import_eqb imp) (imps i) then i
-  else {| imps := imps i ++ [imp]; from_imps := from_imps i |}.
+  else {| imps := imps i ++ [imp]; typing_imps := typing_imps i; other_from := other_from i |}.
 
 (** string order as Rust's [String::cmp] (bytewise) *)
 Fixpoint str_ltb (a b : string) : bool :=
@@ -106,13 +119,24 @@ Fixpoint map_get {V} (k : string) (m : list (string * V)) : option V :=
   | (k', v) :: r => if String.eqb k k' then Some v else map_get k r
   end.
 
-Definition add_from_import (from name : string) (i : imports) : imports :=
-  match map_get from (from_imps i) with
+Definition add_name (name : string) (v : option (list core * list core)) : list core * list core :=
+  match v with
   | Some (names, alias) =>
-      let names' := if existsb (core_id_eqb (Id name)) names then names else insert_sorted_id name names in
-      {| imps := imps i; from_imps := map_insert from (names', alias) (from_imps i) |}
-  | None =>
-      {| imps := imps i; from_imps := map_insert from ([Id name], []) (from_imps i) |}
+      (if existsb (core_id_eqb (Id name)) names then names else insert_sorted_id name names, alias)
+  | None => ([Id name], [])
+  end.
+
+Definition add_from_import (from name : string) (i : imports) : imports :=
+  if String.eqb from "typing" then
+    {| imps := imps i; typing_imps := Some (add_name name (typing_imps i)); other_from := other_from i |}
+  else
+    {| imps := imps i; typing_imps := typing_imps i;
+       other_from := map_insert from (add_name name (map_get from (other_from i))) (other_from i) |}.
+
+Definition from_imps (i : imports) : list (string * (list core * list core)) :=
+  match typing_imps i with
+  | Some v => map_insert "typing" v (other_from i)
+  | None => other_from i
   end.
 
 Definition from_import_core (kv : string * (list core * list core)) : core :=
@@ -204,6 +228,13 @@ Definition with_remove_ret (s : state) (b : bool) : state :=
   {| interface := interface s; expand_ty := expand_ty s; def_as_fun_arg := def_as_fun_arg s; tup_lit := tup_lit s;
      annotate := annotate s; last_ret := last_ret s; assign_to := assign_to s; remove_ret := b |}.
 
+Definition with_interface (s : state) (b : bool) : state :=
+  {| interface := b; expand_ty := expand_ty s; def_as_fun_arg := def_as_fun_arg s; tup_lit := tup_lit s;
+     annotate := annotate s; last_ret := last_ret s; assign_to := assign_to s; remove_ret := remove_ret s |}.
+Definition with_def_as_fun_arg (s : state) (b : bool) : state :=
+  {| interface := interface s; expand_ty := expand_ty s; def_as_fun_arg := b; tup_lit := tup_lit s;
+     annotate := annotate s; last_ret := last_ret s; assign_to := assign_to s; remove_ret := remove_ret s |}.
+
 (** ** [append_ret], [append_assign] *)
 
 Definition skip_return (c : core) : bool :=
@@ -284,6 +315,130 @@ Fixpoint append_assign (target : core) (name : option nm) (c : core) (i : import
   | Except cl b => let '(b', i') := append_assign target name b i in (Except cl b', i')
   | other => assign_leaf target name other i
   end.
+
+
+(** ** Classes ([convert/class.rs], with the (slot, kind) positions of the repaired [extract_class]) *)
+
+(** structural equality of the [Core] keys that can occur (identifiers; anything else never equal) *)
+Definition key_eqb (a b : core) : bool :=
+  match a, b with Id x, Id y => String.eqb x y | _, _ => false end.
+
+Definition entry := (core * ((nat * nat) * core))%type.   (* key, ((slot, kind), statement) *)
+
+Fixpoint hm_insert (k : core) (v : (nat * nat) * core) (m : list entry) : list entry :=
+  match m with
+  | [] => [(k, v)]
+  | (k', v') :: r => if key_eqb k k' then (k, v) :: r else (k', v') :: hm_insert k v r
+  end.
+Fixpoint hm_get (k : core) (m : list entry) : option ((nat * nat) * core) :=
+  match m with
+  | [] => None
+  | (k', v) :: r => if key_eqb k k' then Some v else hm_get k r
+  end.
+
+Definition stmt_entry (i : nat) (stmt : core) : entry :=
+  match stmt with
+  | FunDef _ id _ _ _ => (Id id, ((i + 2, 2), stmt))
+  | FunDefOp op _ _ _ => (Id (funop_name op), ((i + 2, 2), stmt))
+  | VarDef var _ _ => (var, ((i, 0), stmt))
+  | _ => (Id "@", ((i, 0), stmt))
+  end.
+
+Fixpoint body_entries (i : nat) (stmts : list core) (m : list entry) : list entry :=
+  match stmts with
+  | [] => m
+  | s :: r => let '(k, v) := stmt_entry i s in body_entries (S i) r (hm_insert k v m)
+  end.
+
+Definition pos_ltb (a b : nat * nat) : bool :=
+  (fst a <? fst b)%nat || ((fst a =? fst b)%nat && (snd a <? snd b)%nat).
+
+Fixpoint insert_by_pos (e : (nat * nat) * core) (l : list ((nat * nat) * core)) : list ((nat * nat) * core) :=
+  match l with
+  | [] => [e]
+  | x :: r => if pos_ltb (fst e) (fst x) then e :: l else x :: insert_by_pos e r
+  end.
+Definition sort_by_pos (l : list ((nat * nat) * core)) : list ((nat * nat) * core) :=
+  fold_right insert_by_pos [] l.
+
+Definition parent_init (parent : core) : core * list core :=
+  let '(lit, arg) :=
+    match parent with
+    | FunctionCall (Type_ lit _) args => (lit, args)
+    | FunctionCall _ args => ("", args)
+    | Type_ lit _ => (lit, [])
+    | _ => ("", [])
+    end in
+  let args := Id n_self_ :: arg in
+  (PropertyCall (Id lit) (FunctionCall (Id n_init) args), args).
+
+Definition core_eqb_shallow (a b : core) : bool :=
+  match a, b with
+  | Id x, Id y => String.eqb x y
+  | _, _ => false
+  end.
+
+Definition block_stmts (c : core) : list core := match c with Block sts => sts | other => [other] end.
+
+(** [init]: the constructor synthesised from class arguments and parent calls *)
+Definition class_init (old_init : option core) (class_args parents : list core) : option core :=
+  let pis := map parent_init parents in
+  let parent_inits := map fst pis in
+  let parent_args := map snd pis in
+  let '(args, statements) :=
+    match old_init with
+    | Some (FunDef _ _ arg _ body) =>
+        (arg, (parent_inits ++ block_stmts body)%list)
+    | Some _ => ([], parent_inits)
+    | None => (class_args, parent_inits)
+    end in
+  let vars := flat_map (fun a => match a with FunArg _ var _ _ => [var] | _ => [] end) class_args in
+  let fresh := filter (fun v => negb (existsb (fun pa => existsb (core_eqb_shallow v) pa) parent_args)) vars in
+  let statements := (statements ++ map (fun v => Assign (PropertyCall (Id n_self_) v) v OpAssign) fresh)%list in
+  let first_is_self :=
+    match args with
+    | FunArg _ (Id lit) _ _ :: _ => String.eqb lit n_self_
+    | _ => false
+    end in
+  let args := if first_is_self then args else Id n_self_ :: args in
+  match statements with
+  | [] => None
+  | _ => Some (FunDef [] n_init args None (Block statements))
+  end.
+
+Definition parent_name (parent : core) : option core :=
+  match parent with
+  | FunctionCall (Type_ lit _) _ => Some (Id lit)
+  | Type_ _ _ => Some parent
+  | _ => None          (* the Rust code panics here *)
+  end.
+
+Definition assemble_class (body_stmts : list core) (args parents : list core) : option (list core * list core) :=
+  let m := body_entries 0 body_stmts [] in
+  let old_init := match hm_get (Id n_init) m with Some (_, f) => Some f | None => None end in
+  let m' :=
+    match class_init old_init args parents with
+    | Some new_init =>
+        let pos :=
+          match hm_get (Id n_init) m with
+          | Some (p, _) => p
+          | None =>
+              fold_right (fun e acc =>
+                            match snd (snd e) with
+                            | VarDef _ _ _ => let p := (S (fst (fst (snd e))), 1) in
+                                              if pos_ltb acc p then p else acc
+                            | _ => acc
+                            end) (0, 1) m
+          end in
+        hm_insert (Id n_init) (pos, new_init) m
+    | None => m
+    end in
+  let names := map parent_name parents in
+  if existsb (fun o => match o with None => true | Some _ => false end) names then None
+  else
+    let sorted := map snd (sort_by_pos (map snd m')) in
+    Some (flat_map (fun o => match o with Some x => [x] | None => [] end) names,
+          match sorted with [] => [Pass] | _ => sorted end).
 
 (** ** [convert_node] *)
 
@@ -528,6 +683,80 @@ Fixpoint conv (a : ast) (st : state) {struct a} : M core :=
                        attempt ex)
     | NPass => ret Pass
     | NCase _ _ => ret Empty
+    | NDict elements =>
+        kvs <- mmap (fun kv => ck <- conv (fst kv) st ;; cv <- conv (snd kv) st ;; ret (ck, cv)) elements ;;
+        ret (Dictionary kvs)
+    | NListBuilder item conds =>
+        e <- conv item st ;;
+        match conds with
+        | col :: rest =>
+            cs <- conv_list rest st ;; cc <- conv col st ;; ret (List_ [Comprehension e cc cs])
+        | [] => fail
+        end
+    | NSetBuilder item conds =>
+        e <- conv item st ;;
+        match conds with
+        | col :: rest =>
+            cs <- conv_list rest st ;; cc <- conv col st ;; ret (Set_ [Comprehension e cc cs])
+        | [] => fail
+        end
+    | NDictBuilder from to conds =>
+        f <- conv from st ;; t <- conv to st ;;
+        match conds with
+        | col :: rest =>
+            cs <- conv_list rest st ;; cc <- conv col st ;; ret (DictComprehension f t cc cs)
+        | [] => fail
+        end
+    | NWith resource alias body =>
+        r <- conv resource st ;;
+        match alias with
+        | Some al => ca <- conv al (with_expand st false) ;; b <- conv body st ;; ret (WithAs r ca b)
+        | None => b <- conv body st ;; ret (With r b)
+        end
+    | NTypeAlias name generics isa =>
+        _ <- touch (add_from_import "typing" "NewType") ;;
+        t <- lift (nm_to_py isa) ;;
+        ret (Assign (Id name) (FunctionCall (Id "NewType") [Str name; t]) OpAssign)
+    | NParent name generics args =>
+        t <- lift (tn_to_py (TN false name generics)) ;;
+        match args with
+        | [] => ret t
+        | _ => cs <- conv_list args st ;; ret (FunctionCall t cs)
+        end
+    | NClass name generics args parents body =>
+        ps <- conv_list parents st ;;
+        let cst := with_interface st false in
+        b <- conv_opt body cst ;;
+        ca <- conv_list args (with_def_as_fun_arg cst true) ;;
+        let stmts := match b with Some x => block_stmts x | None => [] end in
+        match assemble_class stmts ca ps with
+        | Some (parent_names, body_stmts) =>
+            t <- lift (tn_to_py (TN false name generics)) ;;
+            match t with
+            | Type_ lit _ => ret (ClassDef (Id lit) parent_names (Block body_stmts))
+            | _ => fail
+            end
+        | None => fail
+        end
+    | NTypeDef name generics isa body abstract_parent =>
+        ps <- (match isa with
+               | Some n => (t <- lift (nm_to_py n) ;; ret [t])
+               | None => ret []
+               end) ;;
+        let cst := with_interface st true in
+        b <- conv_opt body cst ;;
+        let stmts := match b with Some x => block_stmts x | None => [] end in
+        match assemble_class stmts [] ps with
+        | Some (parent_names, body_stmts) =>
+            pn <- (if abstract_parent then ret parent_names
+                   else (_ <- touch (add_from_import "abc" "ABC") ;; ret (parent_names ++ [Id "ABC"])%list)) ;;
+            t <- lift (tn_to_py (TN false name generics)) ;;
+            match t with
+            | Type_ lit _ => ret (ClassDef (Id lit) pn (Block body_stmts))
+            | _ => fail
+            end
+        | None => fail
+        end
     end end in
   c <- result ;;
   c1 <- (match must_assign with
